@@ -98,7 +98,17 @@ pub fn seeds() -> Vec<(&'static str, Module)> {
     // S10: string DEFAULTs with a space inside the quotes
     out.push((
         "s10-literals",
-        Module::new("Literals").def("T", Ty::seq(vec![Comp::new("s", utf(Size::Any)).default(Lit::Str("a b".into())), Comp::new("t", utf(Size::Any)).default(Lit::Str("x--y /* z".into())), Comp::new("i", Ty::int_r(0, 9)).default(Lit::Int(4)), Comp::new("b", Ty::Bool).default(Lit::Bool(false))])),
+        Module::new("Literals").def("T", Ty::seq(vec![Comp::new("s", utf(Size::Any)).default(Lit::Str("a b".into())), Comp::new("t", utf(Size::Any)).default(Lit::Str("x--y /* z".into())), Comp::new("i", Ty::int_r(0, 9)).default(Lit::Int(4)), Comp::new("b", Ty::Bool).default(Lit::Bool(false)), Comp::new("h", Ty::oct(Size::Any)).default(Lit::Hex(vec![0xCA, 0xFE]))])),
+    ));
+    // S15: a chain of type aliases that ends in an ENUMERATED, and DEFAULTs that name its items through the chain and
+    // directly: one replaced token closes the chain to a cycle
+    out.push((
+        "s15-aliases",
+        Module::new("Aliases")
+            .def("A", Ty::r("B"))
+            .def("B", Ty::r("C"))
+            .def("C", Ty::Enum { root: vec![("x".into(), None), ("y".into(), None)], ext: None })
+            .def("T", Ty::seq(vec![Comp::new("e", Ty::r("A")).default(Lit::Enum("x".into())), Comp::new("g", Ty::r("C")).default(Lit::Enum("y".into()))])),
     ));
     // S13: recursion through untagged CHOICE alternatives (directly, and two CHOICEs naming each other), through a
     // list and through an OPTIONAL component: tag resolution and type conversion must terminate
